@@ -79,31 +79,37 @@ pub open spec fn decos_uses(ds: Seq<Expr>, n: int, which: int, file: PV, li: Seq
 /// ASSUMED order of `Self::all_args(args)` is PROVED for the real all_args (chain of the three slices)
 pub open spec fn all_params(a: AArguments) -> Seq<AArg> { a.posonlyargs@ + a.args@ + a.kwonlyargs@ }
 pub open spec fn pname(a: AArg) -> Seq<char> { idv(&a.def.arg) }
-pub open spec fn is_dep(a: AArg) -> bool { pname(a) != "self"@ && pname(a) != "request"@ }
-pub open spec fn not_self(a: AArg) -> bool { pname(a) != "self"@ }
+/// a parameter WITH a default value (`def f(x=1)`, `def f(*, k=None)`) is an ordinary argument: pytest never treats it as a
+/// fixture request (F-03e)
+pub open spec fn has_default(a: AArg) -> bool { a.default is Some }
+/// a fixture's parameter is a fixture request (dependency + usage): not self / request, no default
+pub open spec fn is_dep(a: AArg) -> bool { pname(a) != "self"@ && pname(a) != "request"@ && !has_default(a) }
+/// a test function's parameter is a fixture request (usage): not self, no default
+pub open spec fn is_test_req(a: AArg) -> bool { pname(a) != "self"@ && !has_default(a) }
 /// usage recorded for a parameter: [col(start of the parameter), + byte length of its NAME)  (C15: not the AST range,
 /// which includes the annotation)
 pub open spec fn param_use(a: AArg, file: PV, li: Seq<usize>) -> UseV {
     let c = vcol(li, r_start(a.def.range));
     UseV { name: pname(a), file, line: vline(li, r_start(a.def.range)), start_char: c, end_char: (c + blen(pname(a))) as usize }
 }
-/// dependency list: the first n parameters that are neither `self` nor `request`, in order
+/// dependency list: the first n parameters that are neither `self` nor `request` and have NO default value, in order
 pub open spec fn deps_of(ps: Seq<AArg>, n: int) -> Seq<Seq<char>>
     decreases n
 {
     if n <= 0 || n > ps.len() { Seq::empty() } else if is_dep(ps[n - 1]) { deps_of(ps, n - 1).push(pname(ps[n - 1])) } else { deps_of(ps, n - 1) }
 }
-/// usages of the first n parameters: a fixture skips self and request, a test only self
+/// usages of the first n parameters: a fixture skips self and request, a test only self; both skip defaulted parameters
 pub open spec fn param_uses(ps: Seq<AArg>, n: int, fixture: bool, file: PV, li: Seq<usize>) -> Seq<UseV>
     decreases n
 {
     if n <= 0 || n > ps.len() { Seq::empty() } else {
         let a = ps[n - 1];
-        if (if fixture { is_dep(a) } else { not_self(a) }) { param_uses(ps, n - 1, fixture, file, li).push(param_use(a, file, li)) }
+        if (if fixture { is_dep(a) } else { is_test_req(a) }) { param_uses(ps, n - 1, fixture, file, li).push(param_use(a, file, li)) }
         else { param_uses(ps, n - 1, fixture, file, li) }
     }
 }
-/// the set handed to the undeclared-fixture scan as "declared"
+/// the set handed to the undeclared-fixture scan as "declared": EVERY parameter, defaulted or not (a defaulted parameter is
+/// a local name of the body)
 pub open spec fn declared_of(ps: Seq<AArg>, n: int, base: Set<Seq<char>>) -> Set<Seq<char>>
     decreases n
 {
@@ -153,8 +159,8 @@ pub open spec fn func_defs(v: FnV, file: PV, src: Seq<char>, li: Seq<usize>) -> 
     match first_fix(v.decos, 0) { Some(k) => seq![fixture_def(v, v.decos[k], file, src, li)], None => Seq::empty() }
 }
 /// usages of a function, in recording order: usefixtures marks, parametrize-indirect marks, then -- if it is a
-/// fixture -- its parameters except self / request, then -- if its name starts with test_ -- its parameters except
-/// self (a fixture-decorated `test_x` records its parameters twice: that is what the code does)
+/// fixture -- its parameters except self / request / defaulted ones, then -- if its name starts with test_ -- its
+/// parameters except self / defaulted ones (a fixture-decorated `test_x` records its parameters twice: that is what the code does)
 pub open spec fn func_uses(v: FnV, file: PV, li: Seq<usize>) -> Seq<UseV> {
     let ps = all_params(v.args);
     decos_uses(v.decos, v.decos.len() as int, 0, file, li) + decos_uses(v.decos, v.decos.len() as int, 1, file, li)
